@@ -360,7 +360,7 @@ int main(int argc, char** argv) {
   // inversion of strictly diagonally dominant matrices
   {
     int n = quick ? 400 : 2000;
-    string m = "[", xhi = "[", xlo = "[";
+    string m = "[", mf = "[", xhi = "[", xlo = "[";
     for (int i = 0; i < n; i++) {
       Matrix4<double> M;
       long long Mi[4][4];
@@ -386,34 +386,47 @@ int main(int argc, char** argv) {
       if (i % 6 == 4)
         for (int x = 0; x < 4; x++)
           for (int y = x + 1; y < 4; y++) swap(Mi[x][y], Mi[y][x]);
+      // tiny couplings: some zero off-diagonal entries become k * 1e-7 (|k| <= 9), far below the other entries but far
+      // above the 1e-9 tolerance - an elimination step may not treat them as zero
+      long long Mf[4][4] = {};
+      if (i % 5 == 2)
+        for (int x = 0; x < 4; x++)
+          for (int y = 0; y < 4; y++)
+            if (x != y && r.chance(40)) {
+              Mi[x][y] = 0;
+              Mf[x][y] = r.range(-9, 9);
+            }
       for (int x = 0; x < 4; x++)
-        for (int y = 0; y < 4; y++) M.m[x][y] = (double)Mi[x][y];
+        for (int y = 0; y < 4; y++) M.m[x][y] = (double)Mi[x][y] + (double)Mf[x][y] * 1e-7;
       Matrix4<double> X = r.chance(50) ? M.inverse() : Matrix4<double>(M).invert();
       if (i) {
-        m += ","; xhi += ","; xlo += ",";
+        m += ","; mf += ","; xhi += ","; xlo += ",";
       }
-      string ms = "[", hs = "[", ls = "[";
+      string ms = "[", fs = "[", hs = "[", ls = "[";
       for (int x = 0; x < 4; x++) {
         if (x) {
-          ms += ","; hs += ","; ls += ",";
+          ms += ","; fs += ","; hs += ","; ls += ",";
         }
-        vector<long long> mr, hr, lr;
+        vector<long long> mr, fr, hr, lr;
         for (int y = 0; y < 4; y++) {
           mr.push_back(Mi[y][x]);
+          fr.push_back(Mf[y][x]);
           long long fx = llround(X.m[y][x] * 1e12);
           hr.push_back(fx / 1000000);
           lr.push_back(fx % 1000000);
         }
         ms += iv(mr);
+        fs += iv(fr);
         hs += iv(hr);
         ls += iv(lr);
       }
       m += ms + "]";
+      mf += fs + "]";
       xhi += hs + "]";
       xlo += ls + "]";
     }
     vt::J j;
-    j.str("e", "inv").raw("m", m + "]").raw("xhi", xhi + "]").raw("xlo", xlo + "]");
+    j.str("e", "inv").raw("m", m + "]").raw("mf", mf + "]").raw("xhi", xhi + "]").raw("xlo", xlo + "]");
     tr.emit(j);
     tr.events += n - 1;
     tr.nontrivial("inv");
